@@ -51,6 +51,13 @@ DESC_DEFS = {
     "R": ("c17/co3", [("string", "tag"), ("varint", "seq"), ("string", "xuint16y")]),
     "e": ("test/event", [("string", "f35453")]),
     "E": ("test/event", [("string", "f30164"), ("varint", "n")]),
+    # composite records whose parts are two types with the SAME NAME but different fields (a type and its extended version;
+    # different hashes, not identifier-coincident): k and K sit together in one grouped record (shape m), one record[] field
+    # (shape M) or two nested record fields (shape n) - the first occurrence of both types is that very object
+    "k": ("c17/k", [("string", "tag"), ("varint", "seq")]),
+    "K": ("c17/k", [("string", "tag"), ("varint", "seq"), ("string", "extra")]),
+    "M": ("c17/holder", [("string", "tag"), ("varint", "seq"), ("record[]", "items")]),
+    "n": ("c17/holder2", [("string", "tag"), ("varint", "seq"), ("record", "one"), ("record", "two")]),
     # free text with line-break characters for the CSV writer
     "c": ("c17/c", [("string", "tag"), ("varint", "seq"), ("string", "note")]),
     # Avro refusal histories: out-of-range integer / unencodable text sit at non-first fields
@@ -58,6 +65,7 @@ DESC_DEFS = {
 }
 GROUP_NAME = "c17/group"
 COINCIDENT_SHAPES = "pPqQrReE"
+COMPOSITE_SHAPES = "mMn"  # m is a grouped record
 COINCIDENT_PAIRS = [("p", "P"), ("q", "Q"), ("r", "R"), ("e", "E")]
 CSV_NOTES = ["plain", "a\rb", "a\r\nb", "trail\r", "x\ny", "\r", "q\"uote,comma", "two\r\rcr", "\rlead", "end\n", ""]
 
@@ -71,7 +79,7 @@ def coincident_ok():
 def shapes_for(kind, grouped=True):
     """Record shapes a writer workload draws from for this adapter kind."""
     spec = KINDS[kind]
-    extra = {"stream": ("gG" if grouped else "") + COINCIDENT_SHAPES, "json": COINCIDENT_SHAPES}.get(spec["fam"], "")
+    extra = {"stream": ("gGm" if grouped else "") + COINCIDENT_SHAPES + "Mn", "json": COINCIDENT_SHAPES + "Mn"}.get(spec["fam"], "")
     return spec["shapes"] + extra
 
 # adapter kinds.  fam = reader family, codec = compression of the file, shapes = descriptor shapes the format can hold
@@ -142,6 +150,25 @@ def make_record(rng, i, shape, generated=None, extra=None):
         r = descriptor(shape)(**kw)
     elif shape == "c":
         r = descriptor("c")(tag=_tag(rng, i), seq=i, note=rng.choice(CSV_NOTES))
+    elif shape in COMPOSITE_SHAPES:
+        from flow.record import GroupedRecord
+
+        first_is_k = rng.random() < 0.5
+        a = descriptor("k")(tag=_tag(rng, i, "T" if shape == "m" and first_is_k else "N"), seq=i)
+        b = descriptor("K")(tag=_tag(rng, i, "T" if shape == "m" and not first_is_k else "N"), seq=i, extra="e%d" % rng.randrange(1000))
+        parts = [a, b] if first_is_k else [b, a]
+        if generated is not None:
+            for m in parts:
+                m._generated = generated
+        if shape == "m":
+            return GroupedRecord(GROUP_NAME + "2", parts)
+        if shape == "M":
+            r = descriptor("M")(tag=_tag(rng, i), seq=i, items=parts + ([descriptor("k")(tag=_tag(rng, i, "N"), seq=i)] if rng.random() < 0.3 else []))
+            if generated is not None:
+                for m in r.items:
+                    m._generated = generated
+        else:
+            r = descriptor("n")(tag=_tag(rng, i), seq=i, one=parts[0], two=parts[1])
     elif shape in ("h", "t"):
         r = descriptor(shape)(tag=_tag(rng, i), seq=i, **(extra or {}))
     elif shape in "gG":
@@ -474,26 +501,59 @@ def inspect_file(fam, codec, path, scheme=None, skip_reader=False):
 SQLITE_SLOTS = ("tag", "seq", "blob", "when", "ratio")  # slots SQLite gives back unchanged for this record family
 
 
-def csv_row_problems(rows, expected):
-    """Row integrity of a CSV file against the records it should hold: every row is either the header of the record type
-    that follows or one complete record (one cell per field incl. the four reserved ones, the free-text cell intact)."""
+def csv_type_key(o):
+    """What decides whether the CSV writer starts a new header: type name + flat field list."""
+    if o[0] == "grouped":
+        flat = []
+        for m in o[2]:
+            for f in m[2]:
+                if f[1] not in [x[1] for x in flat]:
+                    flat.append(f)
+        return (o[1], tuple(map(tuple, flat)))
+    return (o[1], tuple(map(tuple, o[2])))
+
+
+def csv_row_problems(rows, expected, restart_at=()):
+    """Row integrity of a CSV file against the records it should hold: exactly one header row per run of records of one type
+    (and after a restart - the first record of a split part in a raw concatenation), every record row as long as its header,
+    the free-text cell intact."""
     out = []
     by_tag = {ident(o)[1]: o for o in expected}
+    prev_key, header, pending = None, None, None
+
+    def bad(msg, ri, row, **kw):
+        out.append(("indep-mismatch", msg, dict(kw, row=ri, row_head=row[:4])))
+
     for ri, row in enumerate(rows):
         tags = [c for c in row if TAG_RE.fullmatch(c)]
         if len(tags) == 1 and tags[0] in by_tag:
             o = by_tag[tags[0]]
-            slots = observe.slots_of(o)
-            note = slots.get("note")
-            if len(row) != len(o[3]):
-                out.append(("indep-mismatch", "a CSV row does not have one cell per field (a value broke the row)",
-                            {"row": ri, "cells": len(row), "fields": len(o[3]), "row_head": row[:4]}))
-            elif note is not None and note[2] not in row:
-                out.append(("indep-mismatch", "the free-text cell of a CSV row is not the value written", {"row": ri, "written": note[2], "row_head": row[:4]}))
+            key = csv_type_key(o)
+            if key != prev_key or tags[0] in restart_at:
+                if pending is None:
+                    bad("a run of CSV records of a new type starts without a header row", ri, row)
+                else:
+                    header = pending
+                    if o[0] == "rec" and tuple(header) != tuple(k for k, _ in o[3]):
+                        bad("the header row before a run of CSV records is not the field list of their type", ri, row, header=header[:6])
+            elif pending is not None:
+                bad("a header row appears inside a run of CSV records of one type (or a value broke a row)", ri, row, stray=pending[:4])
+            pending = None
+            if header is not None and len(row) != len(header):
+                bad("a CSV row does not have one cell per field (a value broke the row)", ri, row, cells=len(row), fields=len(header))
+            elif o[0] == "rec":
+                note = observe.slots_of(o).get("note")
+                if note is not None and note[2] not in row:
+                    bad("the free-text cell of a CSV row is not the value written", ri, row, written=note[2])
+            prev_key = key
         elif not tags:
-            names = {tuple(k for k, _ in o[3]) for o in expected}
-            if tuple(row) not in names:
-                out.append(("indep-mismatch", "a CSV row is neither a header nor a record (a value broke the row)", {"row": ri, "row_head": row[:4]}))
+            if pending is not None:
+                bad("a CSV row is neither a header nor a record (a value broke the row)", ri, row)
+            pending = row
+        else:
+            bad("a CSV row carries the tags of several records or of a record that was never written", ri, row)
+    if pending is not None:
+        bad("the CSV file ends with a row that is neither a record nor followed by one", len(rows) - 1, pending)
     return out[:5]
 
 
